@@ -326,6 +326,10 @@ def lb_agreement(rep, r, rule, cfg):
     if not uses:
         return
     declared = 'abs_lec_diff' in r.canon.var_arrays or any(l == 'd' for l, _ in r.canon.arr_letter.values())
+    for a_, (l_, sort_) in sorted(r.canon.arr_letter.items()):
+        if l_ == 'd':
+            rep.check(sort_ == 'L', rule, uses[0].where, 'one deviation variable is declared per lecturer %s' % cfg, got='one per %s' % {'P': 'project', 'S': 'student', None: 'element of an unrecognised range'}.get(sort_, sort_),
+                      want='for lec_index in range(num_lecturers)', construct='deviation variables per %s' % sort_)
     rep.check(declared, rule, uses[0].where, 'the load-deviation variables are declared for this criterion list %s' % cfg,
               got='not declared', construct='deviation variables undeclared', loc=uses[0].loc)
     for k, entry in spec.ABSDIFF.items():
